@@ -386,6 +386,11 @@ class Ctx:
 
     def finish(self):
         wall = time.time() - self.t0
+        if self.coverage.get("discharged") == 0:
+            # schema wants discharged >= 1 for the proof keys; a run whose proofs broke reports it separately
+            self.coverage["obligations_broken"] = self.coverage.pop("obligations", None)
+            self.coverage.pop("discharged", None)
+            self.coverage["proof_status"] = "BROKEN: no obligation of this property was discharged in this run"
         ev = dict(property_id=self.pid, tier=self.tier, seed=self.seed, level=self.level,
                   coverage=self.coverage, assumptions=self.assumptions, wall_s=round(wall, 2),
                   violations=len(self.violations))
